@@ -398,4 +398,109 @@ structure ToolFacts where
   escapes : Nat            -- places where the store value is handed to anything but a Store method call
 deriving Repr
 
+/-! ## The etcd side of a read (added after seeded miss C40-r3-2: lazy offset retention inside a lookup)
+
+The Store-call model above says "FetchConsumerOffset is a read" for BOTH stores.  For `EtcdStore` that is a claim about
+which etcd client operations the method issues; it is regenerated from pkg/metadata/etcd_store.go (`EtcdFacts`) and
+proved against a revisioned key-value model: what a watcher / a dump with revisions can see. -/
+
+/-- etcd client operations the extractor distinguishes (`other` = lease / compact / defragment / `Do`) -/
+inductive EtcdOp where
+  | get | watch | opGet | put | delete | txn | opPut | opDelete | opTxn | other
+deriving Repr, DecidableEq
+
+/-- operations that cannot change the keyspace or its revisions -/
+def EtcdOp.readOnly : EtcdOp → Bool
+  | .get | .watch | .opGet => true
+  | _ => false
+
+/-- per Store method as implemented by `EtcdStore`: etcd operations reachable from it inside pkg/metadata, and the
+Store methods it calls on its cached in-memory snapshot (`s.metadata.X`) -/
+structure EtcdFacts where
+  method : Method
+  ops : List EtcdOp
+  inner : List Method
+deriving Repr
+
+/-- one key of the etcd keyspace as a dump with revisions shows it -/
+structure KvEntry where
+  key : Nat
+  value : Nat          -- the stored bytes, abstracted (equal number = identical bytes)
+  modRev : Nat
+  createRev : Nat
+  version : Nat
+deriving Repr, DecidableEq
+
+structure Kv where
+  rev : Nat
+  entries : List KvEntry
+deriving Repr, DecidableEq
+
+def Kv.find (kv : Kv) (k : Nat) : Option KvEntry := kv.entries.find? (·.key == k)
+
+/-- etcd `Put`: the store revision advances; an existing key keeps createRev, gets version+1 and the new modRev -/
+def Kv.put (kv : Kv) (k v : Nat) : Kv :=
+  let r := kv.rev + 1
+  match kv.find k with
+  | some e => { rev := r, entries := kv.entries.map fun x =>
+      if x.key == k then { e with value := v, modRev := r, version := e.version + 1 } else x }
+  | none => { rev := r, entries := kv.entries ++ [{ key := k, value := v, modRev := r, createRev := r, version := 1 }] }
+
+/-- etcd `Delete` of one key: a revision is consumed only when the key existed -/
+def Kv.delete (kv : Kv) (k : Nat) : Kv :=
+  match kv.find k with
+  | some _ => { rev := kv.rev + 1, entries := kv.entries.filter fun x => !(x.key == k) }
+  | none => kv
+
+/-- requests of the model; `txnDelIfMod k r` = `Txn().If(ModRevision(k) = r).Then(OpDelete(k))` -/
+inductive KvReq where
+  | get (k : Nat) | getPrefix | watch
+  | put (k v : Nat) | delete (k : Nat) | txnDelIfMod (k r : Nat)
+deriving Repr, DecidableEq
+
+def KvReq.op : KvReq → EtcdOp
+  | .get _ | .getPrefix => .get
+  | .watch => .watch
+  | .put _ _ => .put
+  | .delete _ => .delete
+  | .txnDelIfMod _ _ => .txn
+
+def Kv.exec (kv : Kv) : KvReq → Kv
+  | .get _ | .getPrefix | .watch => kv
+  | .put k v => kv.put k v
+  | .delete k => kv.delete k
+  | .txnDelIfMod k r => match kv.find k with
+    | some e => if e.modRev = r then kv.delete k else kv
+    | none => if r = 0 then kv.delete k else kv
+
+def Kv.run (kv : Kv) (rs : List KvReq) : Kv := rs.foldl Kv.exec kv
+
+/-- what the values-only dump used before C40-r3-2 compared -/
+def Kv.plain (kv : Kv) : List (Nat × Nat) := kv.entries.map fun e => (e.key, e.value)
+
+/-- a committed-offset record: offset + committed_at (seconds; `none` = unparsable / absent text) -/
+structure OffRec where
+  offset : Int
+  committedAt : Option Nat
+deriving Repr, DecidableEq
+
+/-- `EtcdStore.LookupConsumerOffset` as it is: one `Get`, decode, answer — whatever the age of the record.
+`decode` maps stored bytes to a record (`none` = not JSON). Returns the requests issued and the answer. -/
+def lookupOffset (decode : Nat → Option OffRec) (kv : Kv) (k : Nat) (_now : Nat) : List KvReq × Option Int :=
+  ([.get k], match kv.find k with
+    | some e => (decode e.value).map (·.offset)
+    | none => none)
+
+/-- the C40-r3-2 variant ("lazy offset retention"): a record older than `retention` is reported absent AND deleted with
+a revision-guarded Txn -/
+def lookupOffsetLazy (retention : Nat) (decode : Nat → Option OffRec) (kv : Kv) (k : Nat) (now : Nat) :
+    List KvReq × Option Int :=
+  match kv.find k with
+  | some e => match decode e.value with
+    | some r => match r.committedAt with
+      | some t => if now - t > retention then ([.get k, .txnDelIfMod k e.modRev], none) else ([.get k], some r.offset)
+      | none => ([.get k], some r.offset)
+    | none => ([.get k], none)
+  | none => ([.get k], none)
+
 end KafVerif.Mcp
